@@ -556,3 +556,26 @@ func exportProbes(maxLen int64) []op {
 	}
 	return []op{mk("EXPORT(a)"), mk("EXPORTTO(a)")}
 }
+
+// jsonModel predicts JSON.stringify of an array of primitives (holes and undefined print as null).
+func jsonModel(w *M.World, a *M.Obj) M.Val {
+	l := w.LengthOfArrayLike(a)
+	parts := make([]string, l)
+	for i := int64(0); i < l; i++ {
+		switch x := w.Get(a, M.NumKey(i), a).(type) {
+		case float64:
+			if x != x || x-x != 0 {
+				parts[i] = "null"
+			} else {
+				parts[i] = M.NumToString(x)
+			}
+		case string:
+			parts[i] = strconv.Quote(x)
+		case bool:
+			parts[i] = strconv.FormatBool(x)
+		default:
+			parts[i] = "null"
+		}
+	}
+	return "[" + strings.Join(parts, ",") + "]"
+}
